@@ -1,4 +1,4 @@
 SPECIFICATION Spec
-INVARIANTS C06_OwnResponse C11_NextAsFresh C11_KafkaErrKeepsOpen C11_ErrorReported C11_FailedStaysFailed C11_NoSpuriousNoProgress C17_CutIsError C17_NoPanicNoHang
+INVARIANTS C06_OwnResponse C11_NextAsFresh C11_KafkaErrKeepsOpen C11_ErrorReported C11_FailedStaysFailed C11_NoSpuriousNoProgress C11_FragmentsAsWhole C17_CutIsError C17_NoPanicNoHang
 POSTCONDITION TraceAccepted
 CHECK_DEADLOCK FALSE
